@@ -44,6 +44,19 @@ theorem untar_preexisting_untouched (dest : Str) (o : Opts) (es : List Entry) (w
   exact ⟨fun p => ⟨h.no_capture i ho p, fun hp => h.names_keep p i hp (hall p hp)⟩, h.inode_out i ho,
     fun hanc => h.inode_quiet i ⟨ho, hanc⟩⟩
 
+/-- **nothing appears out of nowhere**: a name that exists after the extraction and did not exist before is a
+    path the archive names, lies beneath one, or is a directory on the way to one (an implied parent) — no
+    stray file, no temporary left behind, whatever the outcome -/
+theorem untar_creates_only_named (dest : Str) (o : Opts) (es : List Entry) (w : World)
+    (habs : isAbs dest = true) (hov : o.overlay = false) (hsym : ∀ e ∈ es, e.typ ≠ .sym)
+    (hw : LW (pathComps (clean dest)) w) (q : Path) (i : Ino)
+    (hq : ((untarP dest o es).run w).2.fs.lookup q = some i) (h0 : w.fs.lookup q = none) :
+    CovAnc (touched (clean dest) es) q := by
+  have h := untar_frame dest o es w habs hov hsym hw
+  cases Classical.em (CovAnc (touched (clean dest) es) q) with
+  | inl hc => exact hc
+  | inr hc => rw [h.absent_keep q h0 hc] at hq; cases hq
+
 /-- an implied parent that already existed keeps its mode, owner and attributes: a directory on the way to
     a named path is changed in nothing but its modification time -/
 theorem untar_existing_parent_kept (dest : Str) (o : Opts) (es : List Entry) (w : World)
